@@ -404,7 +404,7 @@ func runC10(c *kit.Ctx) {
 	var cblRet ssa.Value
 	kit.Instrs(cbl, func(in ssa.Instruction) {
 		if r, ok := in.(*ssa.Return); ok {
-			cblRet = r.Results[0]
+			cblRet = kit.Res(r, 0)
 		}
 	})
 	sizeForm := eng.Lin(cblRet)
@@ -769,7 +769,7 @@ func isReturnedCount(fn *ssa.Function, ph *ssa.Phi) bool {
 		if !ok || len(r.Results) != 3 {
 			return
 		}
-		v := r.Results[1]
+		v := kit.Res(r, 1)
 		if cv, ok := v.(*ssa.Convert); ok {
 			v = cv.X
 		}
